@@ -207,7 +207,6 @@ func (s *scanner) processTail() (lexeme.LexEvent, error) {
 
 	case lexeme.InlineAnnotationTextBegin:
 		return s.processingFoundLexeme(lexeme.InlineAnnotationTextEnd)
-
 	}
 	// A multi-line annotation has to be closed.
 
@@ -687,6 +686,14 @@ func (s *scanner) stateAnyAnnotationStart(c byte) (st state, err error) {
 }
 
 func (s *scanner) stateInlineAnnotation(c byte) (state, error) {
+	if bytes.IsNewLine(c) {
+		// An empty annotation ends with its line, like any other.
+		s.found(lexeme.InlineAnnotationEnd)
+		s.found(lexeme.NewLine)
+		s.step = s.returnToStep.Pop()
+		s.annotation = false
+		return scanSkip, nil
+	}
 	if bytes.IsBlank(c) {
 		return scanSkip, nil
 	}
